@@ -1,5 +1,9 @@
 // Unit c19_minmax: the fold kernel of every bounding box (property C19).
 //@include prelude_scalar.rs
+//@include prelude_std.rs
+//@include prelude_types.rs
+//@include frag_rect_access.rs
+//@include frag_rect_new.rs
 verus! {
 
 pub open spec fn pc_gt<T: PartialOrd>(a: T, b: T) -> bool { a.partial_cmp_spec(&b) == Some(Ordering::Greater) }
@@ -26,6 +30,37 @@ pub proof fn lemma_min_max_is_min_max<T: CoordNum>(p: T, min: T, max: T, r: (T, 
 {
     T::ax_obeys(); T::ax_cmp(p, max); T::ax_cmp(p, min);
 }
+
+//@fn geo/src/utils.rs | - | partial_max | id=C19.V.partial_max
+//@ret r
+//@spec
+    requires T::obeys_partial_cmp_spec(),
+    ensures r == (if pc_gt(a, b) { a } else { b }),
+//@end
+
+//@fn geo/src/utils.rs | - | partial_min | id=C19.V.partial_min
+//@ret r
+//@spec
+    requires T::obeys_partial_cmp_spec(),
+    ensures r == (if pc_lt(a, b) { a } else { b }),
+//@end
+
+//@fn geo/src/algorithm/bounding_rect.rs | - | bounding_rect_merge | id=C19.V.bounding_rect_merge
+//@ret r
+//@spec
+    requires wf_rect(a), wf_rect(b),
+    ensures
+        // the smallest rectangle containing both: componentwise min of the mins, max of the maxes
+        rmin(r).x.val() == (if rmin(a).x.val() < rmin(b).x.val() { rmin(a).x.val() } else { rmin(b).x.val() }),
+        rmin(r).y.val() == (if rmin(a).y.val() < rmin(b).y.val() { rmin(a).y.val() } else { rmin(b).y.val() }),
+        rmax(r).x.val() == (if rmax(a).x.val() > rmax(b).x.val() { rmax(a).x.val() } else { rmax(b).x.val() }),
+        rmax(r).y.val() == (if rmax(a).y.val() > rmax(b).y.val() { rmax(a).y.val() } else { rmax(b).y.val() }),
+//@before 1 `Rect::new(`
+    proof {
+        T::ax_obeys();
+        T::ax_cmp(a.min.x, b.min.x); T::ax_cmp(a.min.y, b.min.y); T::ax_cmp(a.max.x, b.max.x); T::ax_cmp(a.max.y, b.max.y);
+    }
+//@end
 
 } // verus!
 fn main() {}
